@@ -1194,3 +1194,38 @@ Proof.
   - apply Hq. rewrite Hin. apply in_map. apply (nth_error_In t j'' Hj).
   - apply (IH Hnd'' j'' Hj Hin).
 Qed.
+
+(* ================================================================== the table frame, row by row *)
+Lemma flat_map_head1 {A R : Type} (f : Z -> R -> A) (cs : list Z) r t :
+  flat_map (fun c : list A => match c with x :: _ => [x] | [] => [] end) (map (fun c => f c r :: map (f c) t) cs)
+  = map (fun c => f c r) cs.
+Proof. induction cs as [|c cs IH]; simpl; [reflexivity|]. rewrite IH. reflexivity. Qed.
+
+Lemma transpose_columns {A R : Type} (f : Z -> R -> A) (cs : list Z) (rows : list R) :
+  transpose (length rows) (map (fun c => map (f c) rows) cs) = map (fun r => map (fun c => f c r) cs) rows.
+Proof.
+  induction rows as [|r t IH]; simpl; [reflexivity|].
+  rewrite flat_map_head1. f_equal. rewrite map_map. simpl. exact IH.
+Qed.
+
+Lemma frame_of_columns_rect {A R : Type} (f : Z -> R -> A) (cs : list Z) (rows : list R) :
+  cs <> [] ->
+  frame_of_columns (map (fun c => map (f c) rows) cs) = Ok (map (fun r => map (fun c => f c r) cs) rows).
+Proof.
+  intros Hne. destruct cs as [|c0 cs']; [congruence|].
+  pose proof (transpose_columns f (c0 :: cs') rows) as Ht.
+  assert (all_len (length rows) (map (fun c => map (f c) rows) (c0 :: cs')) = true) as Hl.
+  { apply all_len_spec. intros l Hl. apply in_map_iff in Hl. destruct Hl as [c [<- _]]. apply map_length. }
+  unfold frame_of_columns. cbn [map] in *. rewrite map_length. rewrite Hl, Ht. reflexivity.
+Qed.
+
+(* the frame of table t after any history: its columns are the table's columns in declaration order, row i holds
+   the cells of the i-th accepted row (None where ignore_missing filled a missing column) *)
+Lemma table_frame_rows (cs : list Z) (rows : list (list (Z * cellv))) :
+  cs <> [] ->
+  table_frame (map (fun c => (c, map (fun r => row_cell r c) rows)) cs)
+  = Ok {| cf_cols := cs; cf_rows := map (fun r => map (fun c => row_cell r c) cs) rows |}.
+Proof.
+  intros Hne. unfold table_frame. rewrite !map_map. cbn [fst snd].
+  rewrite (frame_of_columns_rect (fun c r => row_cell r c) cs rows Hne). rewrite map_id. reflexivity.
+Qed.
